@@ -16,7 +16,18 @@ structure EmRow (K : Type) where
   toDim : Dim
   partner : String
   factor : K
+  /-- `prefix ↦ the symbol parse_unyt_expr(prefix + partner) yields` for `""` and every SI prefix
+      (the parser maps names through `inv_name_alternatives`; the translator evaluates it on this
+      finite set of inputs) -/
+  syms : List (String × String) := []
 deriving Repr
+
+/-- the symbol of `Unit(prefix + partner)`; the concatenation itself where the translator found
+    nothing to record -/
+def EmRow.partnerSym {K : Type} (r : EmRow K) (p : String) : String :=
+  match r.syms.find? (fun x => x.1 == p) with
+  | some (_, s) => s
+  | none => p ++ r.partner
 
 abbrev EmTable (K : Type) := List (EmRow K)
 
